@@ -607,12 +607,13 @@ func TestVerifC18(t *testing.T) {
 	cfgs := []c18Cfg{
 		{"base", 6, 3, 4, 0},
 		{"wide+cache", 15, 3, 5, 2},
+		{"odd", 5, 2, 7, 0}, // default timeout longest, span not a multiple of the tick
 	}
-	depths := []int{mc.Pick(c, 5, 7), mc.Pick(c, 5, 6)}
+	depths := []int{mc.Pick(c, 6, 7), mc.Pick(c, 5, 6), mc.Pick(c, 5, 6)}
 	if c.Thorough() {
 		// (the cache configurations run ~5x slower: every cache tick is a hand-off to the two real ticker goroutines)
-		cfgs = append(cfgs, c18Cfg{"wide", 15, 3, 5, 0}, c18Cfg{"odd", 5, 2, 7, 0}, c18Cfg{"base+cache", 6, 3, 4, 2}, c18Cfg{"equal+cache", 4, 4, 4, 1})
-		depths = append(depths, 6, 6, 6, 6)
+		cfgs = append(cfgs, c18Cfg{"wide", 15, 3, 5, 0}, c18Cfg{"base+cache", 6, 3, 4, 2}, c18Cfg{"equal+cache", 4, 4, 4, 1})
+		depths = append(depths, 6, 6, 6)
 	}
 	alpha := c18Alphabet(c.Thorough())
 
